@@ -474,10 +474,10 @@ def relabel(draw, rec, force=False):
 
 
 @st.composite
-def hyd_case(draw, tight=None, numba=None, **kw):
+def hyd_case(draw, tight=None, numba=None, fm_weights=(4, 2, 1), **kw):
     """(recipe, options): the friction model is drawn first because Colebrook-White does not converge on
     branches with (almost) zero flow - for it every dead end carries a load and nothing is out of service."""
-    fm = draw(st.sampled_from(["nikuradse"] * 4 + ["swamee-jain"] * 2 + ["colebrook"]))
+    fm = draw(st.sampled_from(["nikuradse"] * fm_weights[0] + ["swamee-jain"] * fm_weights[1] + ["colebrook"] * fm_weights[2]))
     if fm != "nikuradse":
         # Colebrook-White (implicit) and Swamee-Jain (singular at Re ~ 7) are turbulent-flow formulas: they fail on
         # branches with (almost) no flow, so these models get nets in which every branch carries flow
